@@ -408,19 +408,45 @@ class SymFile:
     def __exit__(self, *a):
         return False
 
-    def read(self):
-        return self.content
+    pos = 0  # read position (characters)
 
-    def readlines(self):
-        out, cur = [], []
-        for c in self.content.cs:
+    def read(self, size=-1):
+        cs = self.content.cs
+        if size is None or size < 0:
+            chunk = cs[self.pos:]
+        else:
+            chunk = cs[self.pos:self.pos + size]
+        self.pos += len(chunk)
+        if not chunk:
+            return b"" if "b" in self.mode else ""  # end of file: the real empty string (used as a sentinel by callers)
+        return SymStr(list(chunk))
+
+    def readline(self):
+        cur = []
+        cs = self.content.cs
+        while self.pos < len(cs):
+            c = cs[self.pos]
+            self.pos += 1
             cur.append(c)
             if c.is_(10):
-                out.append(SymStr(cur))
-                cur = []
-        if cur:
-            out.append(SymStr(cur))
-        return out
+                break
+        return SymStr(cur) if cur else ""
+
+    def readlines(self):
+        out = []
+        while True:
+            line = self.readline()
+            if isinstance(line, str) and not line:
+                return out
+            out.append(line)
+
+    def tell(self):
+        return self.pos
+
+    def seek(self, offset, whence=0):
+        n = len(self.content.cs)
+        self.pos = max(0, min(n, offset if whence == 0 else self.pos + offset if whence == 1 else n + offset))
+        return self.pos
 
     def __iter__(self):
         return iter(self.readlines())
